@@ -282,7 +282,79 @@ def run_element(case):
             'sample': case}
 
 
+AMP_LIBS = {'test': 'test', 'example': 'eqpt_config.json', 'openroadm4': 'eqpt_config_openroadm_ver4.json',
+            'openroadm5': 'eqpt_config_openroadm_ver5.json'}
+AMP_GAINS = [0.0, 2.0, 4.0, 8.0, 'min', 'flatmax']
+
+
+def amp_models():
+    out = []
+    for lib, fn in AMP_LIBS.items():
+        try:
+            eq = c.eqpt_json(fn)
+        except Exception:  # noqa
+            continue
+        for e in eq['Edfa']:
+            if e.get('type_def') != 'multi_band':
+                out.append((lib, e['type_variety']))
+    return out
+
+
+def run_amp(case):
+    """one amplifier of a shipped library, operator-set gain (down to 0 dB), one crossing: the amplifier never removes noise
+    (added ASE >= 0 on every channel) and leaves NLI/S unchanged"""
+    import numpy as np
+    from gnpy.core.exceptions import ConfigurationError, EquipmentConfigError
+    eq = c.eqpt_json(AMP_LIBS[case['lib']])
+    ent = next(e for e in eq['Edfa'] if e['type_variety'] == case['model'])
+    g = case['gain']
+    if g == 'min':
+        g = ent.get('gain_min', 10)
+    elif g == 'flatmax':
+        g = ent.get('gain_flatmax', 20)
+    topo = c.build_topology(['A', 'B'], [('A', 'B', [c.edfa(case['model'], gain_target=float(g), tilt_target=0.0, out_voa=0.0),
+                                                    c.fiber(80), c.edfa()], [c.fiber(80)])])
+    try:
+        equipment = c.make_equipment(eq)
+        net = c.load_network(topo, equipment)
+    except (ConfigurationError, EquipmentConfigError):
+        return {'status': 'rejected', 'tags': {'amp-build-rejected': 1}}
+    amp = c.node(net, 'A>B:0:Edfa')
+    from gnpy.core.info import create_arbitrary_spectral_information
+    n = 8
+    f = np.array([193.0e12 + i * 100e9 for i in range(n)])
+    lvl = case['level']
+    si = create_arbitrary_spectral_information(frequency=f, pch=1e-3 * 10 ** (np.full(n, lvl) / 10), baud_rate=np.full(n, 32e9),
+                                               slot_width=np.full(n, 50e9), tx_osnr=40.0, tx_power=1e-3, roll_off=0.15, label='a')
+    if case['noisy']:
+        si.add_ase(np.full(n, 1e-3 * 10 ** (lvl / 10) * 1e-3))
+        si.add_nli(np.full(n, 1e-3 * 10 ** (lvl / 10) * 5e-4))
+    amp.ref_pch_in_dbm = lvl
+    pre = c.snap(si)
+    try:
+        out = amp(si)
+    except Exception as exc:  # noqa
+        return {'violations': [dict(fingerprint=f'amplifier-raised:{type(exc).__name__}', what=f'{case}: {str(exc)[:160]}', case=case)],
+                'transitions': 1}
+    post = c.snap(out)
+    viol = []
+    if len(post['f']) == len(pre['f']):
+        a0, a1 = pre['ar'] / pre['sr'], post['ar'] / post['sr']
+        n0, n1 = pre['nr'] / pre['sr'], post['nr'] / post['sr']
+        if (a1 < a0 * (1 - 1e-12) - 1e-300).any():
+            i = int(np.argmax(a0 - a1))
+            viol.append(dict(fingerprint='quality-improved:Edfa', what=f'{case["model"]} ({case["lib"]}) at gain {g} dB, input '
+                             f'{lvl} dBm/ch: ASE/S of channel {i} goes {a0[i]!r} -> {a1[i]!r} (the amplifier removed noise)', case=case))
+        if not np.allclose(n1, n0, rtol=1e-9, atol=0):
+            viol.append(dict(fingerprint='amplifier-changed-nli-share', what=f'{case["model"]} at gain {g} dB: NLI/S {n0[:2]} -> {n1[:2]}',
+                             case=case))
+    return {'violations': viol, 'transitions': 1, 'traces': 0 if viol else 1, 'nontrivial': True,
+            'tags': {'single-amplifier': 1, 'low-gain-amplifier': int(float(g) < 5)}, 'sample': case}
+
+
 def run_case(case):
+    if case['kind'] == 'amp':
+        return run_amp(case)
     return run_element(case) if case['kind'] == 'element' else run_net(case)
 
 
@@ -309,10 +381,17 @@ def main(rep, tier, seed):
             cases.append(dict(kind='element', comb=b, before=[a], pumps=pumps, level=0.0, noisy=False, sim=sim, length=80.0,
                               kind_el='RamanFiber'))
             n_hist += 1
+    n_amp = 0
+    for lib, model in amp_models():
+        for g in AMP_GAINS:
+            for level, noisy in ((-20.0, False), (0.0, True)):
+                cases.append(dict(kind='amp', lib=lib, model=model, gain=g, level=level, noisy=noisy))
+                n_amp += 1
     results, stats = engine.run_pool('checks.c02', cases, horizon=900)
     rep.absorb(results)
     rep.cov['bound'] = bound + f' over {list(SPACE)}; every simple trx-to-trx path of each designed network; + {3 * 4 * 2 * 2 * 2 * 2} ' \
-        'single-fibre crossings with wide multi-band combs x pump sets; + ' + str(n_hist) + ' two-comb histories on one RamanFiber object'
+        'single-fibre crossings with wide multi-band combs x pump sets; + ' + str(n_hist) + ' two-comb histories on one RamanFiber object; + ' \
+        + str(n_amp) + ' single crossings of every amplifier model of the test / example / OpenROADM v4 / v5 libraries at operator gains 0, 2, 4, 8 dB, gain_min, flatmax'
     rep.cov['space_size'] = len(cases)
     rep.cov['exhaustive'] = not stats['budget_hit'] and len(results) == len(cases)
     rep.cov['rule'] = ('a case = one designed network (real designed_network) and the real request.propagate over every simple '
@@ -321,5 +400,6 @@ def main(rep, tier, seed):
                        'NLI/S, plain fibre keeps ASE/S. Non-trivial: a path where passive, amplifier and fibre classes were all '
                        'observed acting, or a Raman fibre adding ASE.')
     rep.assumptions += ['recorder wraps element __call__ in the harness process', 'ggn_spectrally_separated only on combs <= 9 channels']
+    rep.require(rep.tags.get('low-gain-amplifier', 0) >= 20, 'low-gain single-amplifier crossings did not run')
     for k in ('passive-equal', 'amp-raised-ase', 'fibre-raised-nli', 'raman-raised-ase'):
         rep.require(rep.tags.get(k, 0) >= 1, f'element class behaviour {k} never observed')
